@@ -270,7 +270,9 @@ func (t *trace) stepQ(s *Step, err error, n *Node, store db.KeyValueStore, quiet
 		rec.out = errClass(n.rejectErr)
 	}
 	if n.fdb.failAt > t.pre && n.fdb.failAt <= n.fdb.Commits() && rec.out == "err:io" {
-		rec.fault = fmt.Sprintf("f%d", n.fdb.failAt-t.pre-1)
+		// position among the call's OWN commits (window writes of a lazy filter initialisation
+		// inside the call are not commits of the call in the model)
+		rec.fault = fmt.Sprintf("f%d", n.fdb.failAt-t.pre-1-n.fdb.initWritesBetween(t.pre, n.fdb.failAt))
 		if s.Op == "prune" {
 			rec.skip = true
 		}
